@@ -51,6 +51,9 @@ CORPUS = [
     "typedef int T; void f(void) { int T; { typedef char T; T *x; } T * 2; } int n; void g(void) { typedef int n; n q; }",
     "void f(void) { goto\n   L; L:\n ; return\n 1; }", "a ? b : c ? d : e;", "void f(void) { a ? b : c ? d : e; p++->m; q++[0]; }",
     "# " + "1" * 30 + "\nint x;",
+    "int a = 08 + 09; char c = '' + ''; @ @ ` `", "\"\\q\" \"\\q\"", "// x // y\n/* a */ /* b */",
+    "# pragma a\n#\tpragma b c\n#   pragma\nint k;\n  #  pragma d  \n", "#  line 5 \"g.h\"\n#\t7\nint m;",
+    "int x % 3;", "\"%d %s\" y;", "int a[3] %= 2;", "x = 100%;",
     # every punctuator
     "void f(int n, ...) { a = !b != ~c % d & e && (f) * g + h++, i - j-- - --k . l / m ? n : o; p < q << r <= s <<= t; u > v >> w >= x >>= y; "
     "z == aa ^ ab | ac || ad; ae *= af; ag /= ah; ai %= aj; ak += al; am -= an; ao &= ap; aq ^= ar; as |= at; au->av[aw] = ++ax; }",
@@ -150,6 +153,9 @@ class Compiled:
             self.old_codes.append(compile(e, "<old>", "eval"))
 
 
+_NORETURN = object()   # result slot of a callback call that has not (or never) returned
+
+
 class _OldErr:
     def __init__(self, e):
         self.e = e
@@ -207,6 +213,15 @@ class Monitor:
         self.counted = sorted(set(_re.findall(r"(?:ncalls|callarg|callres)\('([^']+)'", alltext)) | {n for n, _ in (con.calls or [])})
         self.counters: Dict[str, List[Any]] = {n: [] for n in self.counted}   # name -> list of (args, result)
         self._wrapped_methods: List[Tuple[Any, str, Any]] = []
+        # contract views: callbacks the view assumes never to return (use={"cb.x": "cb.x#raises"}); a call during which such
+        # a callback DID return normally is outside the view and is not checked
+        self.raising_cbs = sorted(k for k, v in (con.use or {}).items() if k.startswith("cb.") and v.endswith("#raises"))
+        if con.name.endswith("#raises"):
+            self.raising_cbs = sorted(set(self.raising_cbs) | {"cb.error_func"})
+        for k in self.raising_cbs:
+            if k not in self.counters:
+                self.counted.append(k)
+                self.counters[k] = []
         self.stats: Dict[str, List[int]] = {c.text: [0, 0, 0] for c in self.ens}   # pass, fail, skipped
         for k, cs in self.exc.items():
             for c in cs:
@@ -287,7 +302,7 @@ class Monitor:
             log = self.counters[name]
 
             def w(*a, __raw=raw, __log=log, **k):
-                __log.append((a, None))
+                __log.append((a, _NORETURN))
                 r = __raw(*a, **k)
                 __log[-1] = (a, r)
                 return r
@@ -362,6 +377,16 @@ class Monitor:
             finally:
                 restore()
         except Exception as ex:
+            if ok and self.con.raises and not ({"CallbackError", "*"} & set(self.con.raises)):
+                # the contract lists every exception class the function may raise
+                names = {k.__name__ for k in type(ex).__mro__}
+                if not (names & set(self.con.raises)):
+                    key = "raises only " + ", ".join(self.con.raises)
+                    st = self.stats.setdefault(key, [0, 0, 0])
+                    st[1] += 1
+                    if len(self.failures) < 5:
+                        self.failures.append((key + f" (raised {type(ex).__name__}: {ex})", self.current_input[1], self.current_input[0]))
+                        self.stats.setdefault(self.failures[-1][0], [0, 1, 0])
             if ok:
                 for c in self.exc.get(type(ex).__name__, []):
                     key = f"raises {type(ex).__name__} => {c.text}"
@@ -385,6 +410,8 @@ class Monitor:
             raise
         if not ok:
             return res
+        if any(any(r is not _NORETURN for _, r in self.counters[k][marks[k]:]) for k in self.raising_cbs):
+            return res   # an assumed-raising callback returned: this call is outside the contract view
         self.checked += 1
         env["result"] = res
         if expected_calls is not None:
@@ -426,6 +453,9 @@ class Monitor:
 
 def drive(mon: Optional[Monitor], only: Optional[int] = None):
     """Run the repository's entry points over the corpus (the wrapped function is reached through them)."""
+    f = (mon.con.file or "") if mon else ""
+    want_gen = not f.endswith(("c_lexer.py", "c_parser.py", "ast_transforms.py"))
+    want_walk = f.endswith("c_ast.py") or not f
     P = core.repo_import("pycparser.c_parser")
     G = core.repo_import("pycparser.c_generator")
     reused = P.CParser()
@@ -454,16 +484,24 @@ def drive(mon: Optional[Monitor], only: Optional[int] = None):
             except Exception:
                 continue
             try:
-                for flag in (False, True):
-                    G.CGenerator(reduce_parentheses=flag).visit(tree)
-                stack = [tree]
-                while stack:
-                    n = stack.pop()
-                    kids = [c for _, c in n.children()]
-                    list(iter(n))
-                    stack += kids
+                if want_gen:
+                    for flag in (False, True):
+                        G.CGenerator(reduce_parentheses=flag).visit(tree)
+                if want_walk or want_gen:
+                    stack = [tree]
+                    while stack:
+                        n = stack.pop()
+                        kids = [c for _, c in n.children()]
+                        list(iter(n))
+                        stack += kids
             except Exception:
                 pass
+
+
+def _lead(why: str) -> str:
+    if why.startswith(("cross-check", "ASSUMED")):
+        return why
+    return f"function outside the SMT subset ({why})"
 
 
 def runtime_check(con, qual: str, prefix: str, why: str) -> List[core.Ob]:
@@ -498,13 +536,13 @@ def runtime_check(con, qual: str, prefix: str, why: str) -> List[core.Ob]:
                f"sys.path.insert(0, {core.VERIF!r})\nfrom pyvc import rtcheck\n"
                f"sys.exit(rtcheck.replay({qual!r}, {k}, {idx}))\n")
         obs.append(core.Ob(f"{prefix}/{qual}/runtime-contract/post/{k}", core.REFUTED, "runtime", dt,
-                           f"function outside the SMT subset ({why}); its contract was evaluated at run time instead.\n"
+                           f"{_lead(why)}; its contract was evaluated at run time on the real function.\n"
                            f"clause `{text}` is FALSE at a call made while parsing corpus input #{idx}: {inp!r}\n"
                            f"({sum(s[1] for s in mon.stats.values())} failing evaluations in {mon.checked} checked calls)",
                            replay=rep, functions=[qual], sample=inp))
     else:
         obs.append(core.Ob(f"{prefix}/{qual}/runtime-contract", core.DISCHARGED, "runtime", dt,
-                           f"BOUNDED: function outside the SMT subset ({why}); contract evaluated at run time on {mon.checked} calls reached from "
+                           f"BOUNDED: {_lead(why)}; contract evaluated at run time on {mon.checked} calls reached from "
                            f"{len(CORPUS)} corpus inputs: {len(evaluated)} ensures clauses held on every call; not evaluated (ghost / counters / "
                            f"unsupported): {len(skipped)}", functions=[qual], bounded=True, sample=f"{mon.checked} calls"))
     return obs
